@@ -32,11 +32,11 @@ def tla_set(xs, quote=True):
     return "{" + ", ".join(('"%s"' % x) if quote else str(x) for x in xs) + "}"
 
 
-def cfg(K=2, maxtime=4, maxenv=2, maxforce=1, envk=ALL_ENV, initk=ALL_INIT, old=(0, 21), devs=(), gen=False,
+def cfg(K=2, maxtime=4, maxenv=2, maxforce=1, envk=None, initk=ALL_INIT, old=(0, 21), devs=(), gen=False,
         tail="VIEW View\nINVARIANTS NoViolation TypeOK TableIsAVersion\nCHECK_DEADLOCK FALSE\n", spec="Spec"):
     return ("SPECIFICATION %s\nCONSTANTS\n  K = %d\n  MaxTime = %d\n  MaxEnv = %d\n  MaxForce = %d\n"
             "  EnvKinds = %s\n  InitKinds = %s\n  OldStamps = %s\n  Devs = %s\n  Gen = %s\n%s") % (
-        spec, K, maxtime, maxenv, maxforce, tla_set(envk), tla_set(initk), tla_set(old, False),
+        spec, K, maxtime, maxenv, maxforce, tla_set(envk or ALL_ENV + ["close", "slow"]), tla_set(initk), tla_set(old, False),
         tla_set(devs), "TRUE" if gen else "FALSE", tail)
 
 
@@ -87,25 +87,127 @@ def shape(b):
 
 
 def nontrivial(b):
-    inside = False
-    for h in b["hist"]:
-        if h["a"] in ("Stat", "Open", "Read"):
-            inside = h["a"] != "Stat" or not inside
-        elif h["a"].startswith("E") and h["a"] != "End" and inside:
+    """the file was edited between two file-system calls of one reload, or made unusable"""
+    calls = ("Stat", "Open", "Read")
+    hist = [h for h in b["hist"] if h["a"] != "Tick"]
+    for i, h in enumerate(hist):
+        if h["a"] in ("ELoop", "EDir", "EUnread"):
             return True
-        elif h["a"] == "Stat":
-            inside = False
-    return any(h["a"] in ("ELoop", "EDir", "EUnread", "ERm") for h in b["hist"])
+        if h["a"].startswith("E") and h["a"] != "End" and 0 < i < len(hist) - 1:
+            prev, nxt = hist[i - 1]["a"], hist[i + 1]["a"]
+            if prev in calls and nxt in ("Open", "Read") or prev in ("Open", "Read") and nxt in calls:
+                return True
+    return False
 
 
-GEN_PLANS = [
-    # (name, K, maxtime, maxenv, maxforce, envkinds, share)
-    ("all", 2, 8, 4, 2, ALL_ENV, 0.30),
-    ("inplace", 2, 8, 5, 1, ["trunc", "app", "put"], 0.15),
-    ("faults", 2, 8, 4, 2, ["loop", "dir", "unread", "rm", "put", "putbad"], 0.20),
-    ("backdated", 2, 8, 4, 2, ["put", "putold", "rm"], 0.15),
-    ("fine", 4, 12, 4, 2, ALL_ENV, 0.20),
+ALL_SW = ALL_ENV + ["close", "slow"]
+
+SIM_PLANS = [
+    # (name, K, maxtime, maxenv, maxforce, switches, share)
+    ("all", 2, 8, 4, 2, ALL_SW, 0.30),
+    ("inplace", 2, 8, 5, 1, ["trunc", "app", "put", "close", "slow"], 0.15),
+    ("faults", 2, 8, 4, 2, ["loop", "dir", "unread", "rm", "put", "putbad", "close", "slow"], 0.20),
+    ("backdated", 2, 8, 4, 2, ["put", "putold", "rm", "close"], 0.15),
+    ("fine", 4, 12, 4, 2, ALL_SW, 0.20),
 ]
+
+# exhaustive (breadth-first) generation: every position of ONE edit of every kind between the calls of the
+# reloads of two intervals, with and without time passing inside reload(); every position of Close / a reload event
+SWEEPS = [
+    ("sweep-edit", dict(maxtime=4, maxenv=1, maxforce=0,
+                        envk=["put", "putbad", "putold", "trunc", "rm", "dir", "loop", "unread", "slow"])),
+    ("sweep-api", dict(maxtime=4, maxenv=1, maxforce=1, envk=["put", "close"], initk=["good"])),
+]
+# witnesses of the named deviations: behaviours of the as-is design up to the first violated predicate
+WITNESS = {
+    "StatErrPanic": dict(maxtime=4, maxenv=1, maxforce=1, envk=["loop", "close"], initk=["good"]),
+    "OldMtimeIgnored": dict(maxtime=8, maxenv=1, maxforce=1, envk=["putold"], initk=["good"]),
+}
+
+
+def model_check(ctx, thorough):
+    """(T) exhaustive model checking of the design"""
+    if thorough:
+        r = ctx.tlc_expect_ok("FileTable", None, name="mc", workers=12, timeout=2400,
+                              cfg_text=cfg(maxtime=6, maxenv=2, envk=ALL_SW))
+        r4 = ctx.tlc_expect_ok("FileTable", None, name="mc4", workers=12, timeout=2400,
+                               cfg_text=cfg(K=4, maxtime=8, maxenv=2, old=(0, 22), envk=ALL_SW))
+        ctx.cov["states_K4"] = r4["distinct"]
+    else:
+        r = ctx.tlc_expect_ok("FileTable", None, name="mc", workers=6, timeout=600,
+                              cfg_text=cfg(maxtime=4, maxenv=2, envk=ALL_SW))
+    ctx.cov["states"] = r["distinct"]
+    ctx.cov["transitions"] = r["generated"]
+    ctx.cov["model_depth"] = r["depth"]
+    ctx.log("TLC exhaustive: %d distinct states, %d transitions, depth %d, %.1fs" % (
+        r["distinct"], r["generated"], r["depth"], r["wall"]))
+    # every named deviation must be found by the same invariant (non-vacuity)
+    for dev in ALL_DEVS:
+        ra = ctx.tlc("FileTable", None, name="asis-" + dev, workers=2, timeout=300,
+                     cfg_text=cfg(maxtime=6, maxenv=2, devs=[dev], envk=ALL_SW,
+                                  tail="VIEW View\nINVARIANTS NoViolation\nCHECK_DEADLOCK FALSE\n"))
+        if ra["invariant"] != "NoViolation":
+            raise vlib.Infra("as-is model (%s) no longer violates NoViolation: the invariant is vacuous (%s)" % (
+                dev, ra["error"]))
+    ctx.cov["asis_counterexamples_found"] = ALL_DEVS
+
+
+def generate(ctx, thorough):
+    """-> list of behaviours; all TLC runs in parallel"""
+    from concurrent.futures import ThreadPoolExecutor
+    total = 24000 if thorough else 420
+    jobs = []
+    for name, K, mt, me, mf, envk, share in SIM_PLANS:
+        n = int(total * share)
+        jobs.append((name, n, dict(name="sim-" + name, workers=1, timeout=1500, simulate=n, depth=120,
+                                   cfg_text=cfg(K=K, maxtime=mt, maxenv=me, maxforce=mf, envk=envk,
+                                                old=(0, 10, 21, 23, 25), gen=True, tail="CHECK_DEADLOCK FALSE\n"))))
+    for name, kw in SWEEPS:
+        jobs.append((name, None if thorough else 90,
+                     dict(name=name, workers=2, timeout=1500,
+                          cfg_text=cfg(gen=True, tail="CHECK_DEADLOCK FALSE\n", **kw))))
+    for dev, kw in sorted(WITNESS.items()):
+        jobs.append(("witness-" + dev, None if thorough else 40,
+                     dict(name="witness-" + dev, workers=2, timeout=1500,
+                          cfg_text=cfg(gen=True, devs=[dev], tail="CHECK_DEADLOCK FALSE\n", **kw))))
+
+    def one(job):
+        name, n, kw = job
+        g = ctx.tlc("FileTable", None, **kw)
+        if not g["ok"]:
+            raise vlib.Infra("behaviour generation %s failed: %s %s" % (name, g["invariant"], g["error"]))
+        return name, n, behaviours_from(g)
+
+    with ThreadPoolExecutor(max_workers=6) as ex:
+        results = list(ex.map(one, jobs))
+    behs, seen = [], set()
+    for name, n, got in results:
+        got.sort(key=lambda b: json.dumps(b, sort_keys=True))
+        ctx.cov.setdefault("generated", {})[name] = len(got)
+        if name.startswith("witness-"):
+            # the prefixes that end in a violation of the as-is design first, then complete behaviours
+            bad = [b for b in got if b["viol"]]
+            good = [b for b in got if not b["viol"]]
+            ctx.rng.shuffle(bad)
+            ctx.rng.shuffle(good)
+            got = bad + good[:len(bad) // 4]
+            if n is not None:
+                got = bad[:n * 3 // 4] + good[:n // 4]
+        else:
+            ctx.rng.shuffle(got)
+        k = 0
+        for b in got:
+            b.pop("viol", None)
+            key = json.dumps(b, sort_keys=True)
+            if key in seen:
+                continue
+            seen.add(key)
+            b["plan"] = name
+            behs.append(b)
+            k += 1
+            if n is not None and k >= n:
+                break
+    return behs
 
 
 def run(ctx, replay):
@@ -114,58 +216,15 @@ def run(ctx, replay):
     open_devs = sorted(set(f["match"]["dev"] for f in findings))
     by_dev = {f["match"]["dev"]: f for f in findings}
 
-    # ---- (T) exhaustive model checking of the design ----------------------------------
-    if not replay:
-        if thorough:
-            r = ctx.tlc_expect_ok("FileTable", None, name="mc", workers=16, timeout=2400,
-                                  cfg_text=cfg(maxtime=6, maxenv=3))
-            r4 = ctx.tlc_expect_ok("FileTable", None, name="mc4", workers=16, timeout=2400,
-                                   cfg_text=cfg(K=4, maxtime=8, maxenv=2, old=(0, 22)))
-            ctx.cov["states_K4"] = r4["distinct"]
-        else:
-            r = ctx.tlc_expect_ok("FileTable", None, name="mc", workers=8, timeout=600,
-                                  cfg_text=cfg(maxtime=4, maxenv=2))
-        ctx.cov["states"] = r["distinct"]
-        ctx.cov["transitions"] = r["generated"]
-        ctx.cov["model_depth"] = r["depth"]
-        ctx.log("TLC exhaustive: %d distinct states, %d transitions, depth %d, %.1fs" % (
-            r["distinct"], r["generated"], r["depth"], r["wall"]))
-        # every named deviation must be found by the same invariant (non-vacuity)
-        for dev in ALL_DEVS:
-            ra = ctx.tlc("FileTable", None, name="asis-" + dev, workers=4, timeout=300,
-                         cfg_text=cfg(maxtime=6, maxenv=2, devs=[dev], tail="VIEW View\nINVARIANTS NoViolation\nCHECK_DEADLOCK FALSE\n"))
-            if ra["invariant"] != "NoViolation":
-                raise vlib.Infra("as-is model (%s) no longer violates NoViolation: the invariant is vacuous (%s)" % (
-                    dev, ra["error"]))
-        ctx.cov["asis_counterexamples_found"] = ALL_DEVS
-
-    # ---- (B) behaviours out of TLC ---------------------------------------------------------
     if replay:
         obj = json.load(open(replay))
         behs = [obj["behaviour"]]
     else:
-        total = 24000 if thorough else 700
-        behs, seen = [], set()
-        for name, K, mt, me, mf, envk, share in GEN_PLANS:
-            n = int(total * share)
-            g = ctx.tlc("FileTable", None, name="sim-" + name, workers=1, timeout=1500, simulate=n, depth=120,
-                        cfg_text=cfg(K=K, maxtime=mt, maxenv=me, maxforce=mf, envk=envk, old=(0, 10, 21, 23, 25),
-                                     gen=True, tail="CHECK_DEADLOCK FALSE\n"))
-            if not g["ok"]:
-                raise vlib.Infra("behaviour simulation %s failed: %s %s" % (name, g["invariant"], g["error"]))
-            got = behaviours_from(g)
-            ctx.rng.shuffle(got)
-            k = 0
-            for b in got:
-                key = json.dumps(b, sort_keys=True)
-                if key in seen:
-                    continue
-                seen.add(key)
-                b["plan"] = name
-                behs.append(b)
-                k += 1
-                if k >= n:
-                    break
+        from concurrent.futures import ThreadPoolExecutor
+        with ThreadPoolExecutor(max_workers=2) as ex:
+            fut = ex.submit(generate, ctx, thorough)      # (B) behaviours out of TLC, while (T) runs
+            model_check(ctx, thorough)
+            behs = fut.result()
         if not behs:
             raise vlib.Infra("TLC produced no behaviours")
     for i, b in enumerate(behs):
@@ -250,9 +309,12 @@ def run(ctx, replay):
     ctx.cov["drift_traces"] = drift
     ctx.cov["evaluations"] = len(behs)
     ctx.cov["distinct_nontrivial"] = sum(1 for b in behs if nontrivial(b))
-    ctx.cov["rule"] = ("behaviours = complete behaviours of FileTable.tla printed by TLC -simulate under five bound/"
-                       "alphabet plans (all edits; in-place writer; faults; back-dated files; K=4), de-duplicated; "
-                       "non-trivial = the file was edited inside a reload or made unusable")
+    ctx.cov["rule"] = ("behaviours = complete behaviours of FileTable.tla printed by TLC: breadth-first sweeps (one edit "
+                       "of every kind / Close / a reload event at every position of two reload rounds), -simulate under "
+                       "five bound/alphabet plans (all edits; in-place writer; faults; back-dated files; K=4) and the "
+                       "as-is design's behaviours up to the first violated predicate for each named deviation; sampled "
+                       "in quick, sweeps and witnesses complete in thorough; de-duplicated; non-trivial = the file was "
+                       "edited between two file-system calls of one reload or made unusable")
     ctx.cov["violated_predicates"] = preds
     ctx.cov["events"] = len(events)
     for b in behs[:3]:
